@@ -36,6 +36,40 @@ func (w *Worker) concInt(fr *frame, v Value, what string) int {
 	return int(int64(w.concretize(t, what+" at "+fr.site())))
 }
 
+// lenTerm returns the (possibly symbolic) length of a slice.
+func (w *Worker) lenTerm(s SliceV) *Term {
+	if s.SymLen != nil {
+		return s.SymLen
+	}
+	return w.T.Const(64, uint64(s.Len))
+}
+
+// concSlice concretises a symbolic slice length (forking over its feasible values).
+func (w *Worker) concSlice(s SliceV) SliceV {
+	if s.SymLen == nil {
+		return s
+	}
+	n := int(w.concretize(s.SymLen, "slice length"))
+	s.Len = n
+	s.SymLen = nil
+	return s
+}
+
+func (w *Worker) concArgs(args []Value) {
+	for i, a := range args {
+		switch x := a.(type) {
+		case SliceV:
+			if x.SymLen != nil {
+				args[i] = w.concSlice(x)
+			}
+		case IfaceV:
+			if sl, ok := x.V.(SliceV); ok && sl.SymLen != nil {
+				args[i] = IfaceV{T: x.T, V: w.concSlice(sl)}
+			}
+		}
+	}
+}
+
 func (w *Worker) unop(fr *frame, instr *ssa.UnOp, x Value) Value {
 	if p, ok := x.(Poison); ok {
 		w.unsupported("unop on poison: " + p.Why)
@@ -366,6 +400,7 @@ func (w *Worker) conv(fr *frame, tdst, tsrc types.Type, x Value) Value {
 				return xv
 			case SliceV:
 				// []byte or []rune -> string
+				xv = w.concSlice(xv)
 				if xv.Len == 0 {
 					return Str{}
 				}
@@ -456,7 +491,7 @@ func (w *Worker) conv(fr *frame, tdst, tsrc types.Type, x Value) Value {
 }
 
 func (w *Worker) sliceToArrayPointer(fr *frame, tdst types.Type, x Value) Value {
-	s := x.(SliceV)
+	s := w.concSlice(x.(SliceV))
 	n := int(tdst.Underlying().(*types.Pointer).Elem().Underlying().(*types.Array).Len())
 	if n > s.Len {
 		w.goPanicRuntime(fr, fmt.Sprintf("cannot convert slice with length %d to array or pointer to array with length %d", s.Len, n))
@@ -474,6 +509,11 @@ func (w *Worker) makeSlice(fr *frame, instr *ssa.MakeSlice, ln, cp Value) Value 
 	lt := w.asTerm(ln, "make len")
 	ct := w.asTerm(cp, "make cap")
 	w.checkAlloc(fr, ct)
+	if !lt.IsConst() && lt == ct {
+		if sv, ok := w.makeSymSlice(fr, instr, lt); ok {
+			return sv
+		}
+	}
 	n := w.concInt(fr, lt, "make len")
 	c := w.concInt(fr, ct, "make cap")
 	if n < 0 || c < n {
@@ -495,6 +535,39 @@ func (w *Worker) makeSlice(fr *frame, instr *ssa.MakeSlice, ln, cp Value) Value 
 		}
 	}
 	return SliceV{Base: base, Len: n, Cap: c, NonNil: true}
+}
+
+// makeSymSlice handles make([]T, n) with symbolic n: the negative / huge classes fork off as
+// panic / allocation events, and if the path condition bounds n by a moderate constant the slice
+// gets that many cells and the symbolic length n (no enumeration of n).
+func (w *Worker) makeSymSlice(fr *frame, instr *ssa.MakeSlice, n *Term) (SliceV, bool) {
+	T := w.T
+	if w.decideBool(T.Bin(OpSLt, n, T.Const(64, 0)), fr) {
+		w.goPanicRuntime(fr, "makeslice: len out of range")
+	}
+	var bound int
+	for _, k := range []int{64, 1 << 10, 1<<14 + 64, 1<<16 + 64, 1 << 20} {
+		if w.query(T.Bin(OpSLt, T.Const(64, uint64(k)), n)) == Unsat {
+			bound = k
+			break
+		}
+	}
+	if bound == 0 {
+		if w.decideBool(T.Bin(OpSLt, T.Const(64, 1<<20), n), fr) {
+			w.hugeAlloc(fr, -1)
+		}
+		bound = 1 << 20
+	}
+	et := instr.Type().Underlying().(*types.Slice).Elem()
+	z := w.zero(et)
+	if _, scalar := z.(*Term); !scalar {
+		return SliceV{}, false
+	}
+	base := make([]Value, bound)
+	for i := range base {
+		base[i] = z
+	}
+	return SliceV{Base: base, Len: bound, Cap: bound, NonNil: true, SymLen: n}, true
 }
 
 func (w *Worker) slice(fr *frame, instr *ssa.Slice, x, lo, hi, max Value) Value {
@@ -528,6 +601,9 @@ func (w *Worker) slice(fr *frame, instr *ssa.Slice, x, lo, hi, max Value) Value 
 		loT = w.asTerm(lo, "slice lo")
 	}
 	hiT := T.Const(64, uint64(Len))
+	if sl.SymLen != nil {
+		hiT = sl.SymLen
+	}
 	if hi != nil {
 		hiT = w.asTerm(hi, "slice hi")
 	}
@@ -545,6 +621,11 @@ func (w *Worker) slice(fr *frame, instr *ssa.Slice, x, lo, hi, max Value) Value 
 		w.goPanicRuntime(fr, "slice bounds out of range")
 	}
 	l := w.concInt(fr, loT, "slice lo")
+	if !hiT.IsConst() && str == nil && !sl.IsNil() {
+		// keep the length symbolic (lazy): consumers fork only on what they observe
+		m := w.concInt(fr, maxT, "slice max")
+		return SliceV{Base: sl.Base, Off: sl.Off + l, Len: m - l, Cap: m - l, NonNil: true, SymLen: T.Bin(OpSub, hiT, T.Const(64, uint64(l)))}
+	}
 	h := w.concInt(fr, hiT, "slice hi")
 	m := w.concInt(fr, maxT, "slice max")
 	if str != nil {
@@ -557,6 +638,13 @@ func (w *Worker) slice(fr *frame, instr *ssa.Slice, x, lo, hi, max Value) Value 
 }
 
 // boundsCheck forks into a panic path if idx may be out of [0,n).
+func (w *Worker) boundsCheckT(fr *frame, idx *Term, n *Term) {
+	oob := w.T.Not(w.T.Bin(OpULt, idx, n))
+	if w.decideBool(oob, fr) {
+		w.goPanicRuntime(fr, "index out of range [symbolic length]")
+	}
+}
+
 func (w *Worker) boundsCheck(fr *frame, idx *Term, n int) {
 	if idx.IsConst() {
 		if int64(idx.Val) < 0 || int64(idx.Val) >= int64(n) {
@@ -587,6 +675,9 @@ func (w *Worker) indexAddr(fr *frame, instr *ssa.IndexAddr, x, idx Value) Value 
 	var cells []Value
 	switch xv := x.(type) {
 	case SliceV:
+		if xv.SymLen != nil {
+			w.boundsCheckT(fr, it, xv.SymLen)
+		}
 		cells = xv.Base[xv.Off : xv.Off+xv.Len]
 		if xv.Base == nil {
 			cells = nil
@@ -937,6 +1028,7 @@ func (w *Worker) callBuiltin(fr *frame, fn *ssa.Builtin, args []Value) Value {
 				src[i] = b
 			}
 		case SliceV:
+			s = w.concSlice(s)
 			if s.Len > 0 {
 				src = s.Base[s.Off : s.Off+s.Len]
 			}
@@ -951,7 +1043,7 @@ func (w *Worker) callBuiltin(fr *frame, fn *ssa.Builtin, args []Value) Value {
 			w.unsupported("append to poison")
 			return args[0]
 		}
-		return w.appendVals(dst, src)
+		return w.appendVals(w.concSlice(dst), src)
 	case "copy":
 		dst, ok := args[0].(SliceV)
 		if !ok {
@@ -959,6 +1051,7 @@ func (w *Worker) callBuiltin(fr *frame, fn *ssa.Builtin, args []Value) Value {
 			return T.Const(64, 0)
 		}
 		var src []Value
+		var srcSym *Term
 		switch s := args[1].(type) {
 		case Str:
 			src = make([]Value, len(s.B))
@@ -966,13 +1059,43 @@ func (w *Worker) callBuiltin(fr *frame, fn *ssa.Builtin, args []Value) Value {
 				src[i] = b
 			}
 		case SliceV:
+			if s.SymLen != nil && dst.SymLen != nil {
+				s = w.concSlice(s)
+			}
+			srcSym = s.SymLen
 			if s.Len > 0 {
 				src = s.Base[s.Off : s.Off+s.Len]
 			}
 		}
-		n := dst.Len
-		if len(src) < n {
-			n = len(src)
+		// number of elements copied = min(len(dst), len(src)); with one symbolic length the classes are
+		// "symbolic >= concrete" (one path) and each smaller value (enumerated)
+		var n int
+		switch {
+		case dst.SymLen != nil:
+			c := len(src)
+			if c == 0 {
+				return T.Const(64, 0)
+			}
+			if w.decideBool(T.Bin(OpSLe, T.Const(64, uint64(c)), dst.SymLen), fr) {
+				n = c
+			} else {
+				n = int(w.concretize(dst.SymLen, "copy length"))
+			}
+		case srcSym != nil:
+			c := dst.Len
+			if c == 0 {
+				return T.Const(64, 0)
+			}
+			if w.decideBool(T.Bin(OpSLe, T.Const(64, uint64(c)), srcSym), fr) {
+				n = c
+			} else {
+				n = int(w.concretize(srcSym, "copy length"))
+			}
+		default:
+			n = dst.Len
+			if len(src) < n {
+				n = len(src)
+			}
 		}
 		if n == 0 {
 			return T.Const(64, 0)
@@ -990,7 +1113,7 @@ func (w *Worker) callBuiltin(fr *frame, fn *ssa.Builtin, args []Value) Value {
 		case Str:
 			return T.Const(64, uint64(len(x.B)))
 		case SliceV:
-			return T.Const(64, uint64(x.Len))
+			return w.lenTerm(x)
 		case ArrayV:
 			return T.Const(64, uint64(len(x)))
 		case *Value:
@@ -1057,6 +1180,7 @@ func (w *Worker) callBuiltin(fr *frame, fn *ssa.Builtin, args []Value) Value {
 	case "clear":
 		switch x := args[0].(type) {
 		case SliceV:
+			x = w.concSlice(x)
 			for i := 0; i < x.Len; i++ {
 				w.store(x.At(i), w.zeroLike(*x.At(i)))
 			}
